@@ -404,6 +404,41 @@ Proof.
     rewrite (word_end_lemma _ X Hlast Hb). reflexivity.
 Qed.
 
+Lemma forallb_impl {A} (p q : A -> bool) l : (forall x, p x = true -> q x = true) -> forallb p l = true -> forallb q l = true.
+Proof.
+  intros Hpq. induction l as [|x l IH]; [reflexivity|]. cbn [forallb]. intro H. apply andb_true_iff in H as [Hx Hl].
+  rewrite (Hpq x Hx), (IH Hl). reflexivity.
+Qed.
+
+(** ** Explicit quantities *)
+Lemma print_chars_raw raw_ok (x : str) : forallb raw_ok x = true -> print_chars raw_ok [] x = x.
+Proof.
+  induction x as [|c x IH]; [reflexivity|]. cbn [forallb print_chars hd tl]. intro H. apply andb_true_iff in H as [Hc Hx].
+  unfold print_char. rewrite Hc, (IH Hx). reflexivity.
+Qed.
+
+Lemma p_static_quoted q (x k : str) fuel o b : (q = 34 \/ q = 39) -> forallb (raw_ok_q q) x = true ->
+  name_followb k = true -> (2 <= fuel)%nat ->
+  p_static fuel (mkSt (q :: x ++ q :: k) o b) = Got x (mkSt k (o + (2 + len x)) b).
+Proof.
+  intros Hq Hx Hk Hf. destruct fuel as [|[|f]]; [lia|lia|]. unfold p_static. rewrite p_string_unfold.
+  pose proof (quoted_roundtrip q [] x k o b (S f) false Hq) as Q. unfold print_quoted in Q.
+  rewrite (print_chars_raw _ x Hx) in Q. cbn [app] in Q. rewrite <- app_assoc in Q. cbn [app] in Q. rewrite Q.
+  rewrite (p_string_stops k _ b f false Hk). cbn [parts_text flat_map]. rewrite app_nil_r.
+  f_equal. f_equal. repeat (rewrite len_cons || rewrite len_app || rewrite len_nil). lia.
+Qed.
+
+Lemma p_static_fails_at (c : N) (r : str) fuel o b : seg_start c = false -> (1 <= fuel)%nat ->
+  p_static fuel (mkSt (c :: r) o b) = Fail.
+Proof.
+  intros Hc Hf. destruct fuel as [|f]; [lia|]. unfold p_static. rewrite p_string_unfold.
+  rewrite (p_segment_fails (c :: r) o b f false Hc). reflexivity.
+Qed.
+
+Lemma quote_facts q : (q =? 34) || (q =? 39) = true ->
+  (q = 34 \/ q = 39) /\ is_hsp q = false /\ is_digit q = false /\ q <> 46 /\ q <> 47.
+Proof. intro H. apply orb_true_iff in H as [H|H]; apply N.eqb_eq in H; subst; repeat split; auto; discriminate. Qed.
+
 (** ** [p_amount] on a printed amount followed by horizontal space and a name *)
 Lemma amt_ok_parts am : amt_ok am = true -> lead_ok am = true /\ tail_text_ok (amt_tail am) = true.
 Proof. unfold amt_ok. intro H. apply andb_true_iff in H as [H _]. apply andb_true_iff in H. exact H. Qed.
@@ -419,11 +454,11 @@ Proof.
 Qed.
 
 Lemma amount_roundtrip am (w : str) c (r : str) o b fuel :
-  amt_ok am = true -> forallb is_hsp w = true -> opener c ->
+  amt_ok am = true -> forallb is_hsp w = true -> opener c -> (2 <= fuel)%nat ->
   p_amount fuel (mkSt (print_amt am ++ w ++ c :: r) o b) =
   Got (amt_val am) (mkSt (w ++ c :: r) (o + len (print_amt am)) b).
 Proof.
-  intros Hok Hw Hc.
+  intros Hok Hw Hc Hfuel.
   pose proof (opener_not_hsp c Hc) as Hch. pose proof (opener_not_digit c Hc) as Hcd.
   pose proof (opener_inert c Hc) as Hci.
   assert (Hc46 : c <> 46) by (destruct Hc as [->|[->| ->]]; discriminate).
@@ -432,7 +467,7 @@ Proof.
   assert (Hc42 : c <> 42) by (destruct Hc as [->|[->| ->]]; discriminate).
   destruct (amt_ok_parts am Hok) as [Hnum _]. unfold amt_ok in Hok. apply andb_true_iff in Hok as [_ Hok].
   unfold print_amt.
-  destruct am as [rw p | t | t sp n v p | t w0 pw | t w0 p | t w0]; cbn [amt_lead lead_ok amt_num amt_tail amt_val] in *.
+  destruct am as [rw p | t | t sp n v p | t w0 pw | t w0 p | t w0 | t w0 u w1 p]; cbn [amt_lead lead_ok amt_num amt_tail amt_val] in *.
   - (* remainder word [preposition] *)
     apply andb_true_iff in Hnum as [Hrw _].
     unfold p_amount, p_proportion. cbn [rest]. repeat rewrite <- app_assoc.
@@ -529,4 +564,32 @@ Proof.
     rewrite (skip_hsp_run w0 (42 :: w ++ c :: r) _ b Hok eq_refl).
     rewrite (eat_miss 37 42 _ _ b ltac:(discriminate)), (eat_hit 42 _ _ b).
     f_equal. f_equal. repeat (rewrite len_app || rewrite len_cons || rewrite len_nil). lia.
+  - (* explicit quantity *)
+    apply andb_true_iff in Hnum as [Hnum _]. apply andb_true_iff in Hnum as [Hnum Hu].
+    apply andb_true_iff in Hnum as [Hnum Hw1]. apply andb_true_iff in Hnum as [Ht Hw0].
+    destruct (ntext_head t Ht) as [d [r' [Eh Hd]]].
+    unfold p_amount, p_proportion. cbn [rest]. norm_app.
+    rewrite (sc_remainder_inert 123 _ eq_refl), (p_number_none 123 _ o b eq_refl).
+    unfold p_explicit. rewrite eat_hit.
+    assert (Hs0 : forall X : str, stops is_hsp (ntext_str t ++ X)) by (intro X; rewrite Eh; exact (digit_not_hsp d Hd)).
+    rewrite (skip_hsp_run w0 _ _ b Hw0 (Hs0 _)).
+    destruct u as [[[sp q] x]|]; cbn [unit_text] in *.
+    + apply andb_true_iff in Hu as [Hu Hx]. apply andb_true_iff in Hu as [Hsp Hq].
+      destruct (quote_facts q Hq) as [Hq2 [Hqh [Hqd [Hq46 Hq47]]]].
+      assert (Hxq : forallb (raw_ok_q q) x = true).
+      { apply (forallb_impl (unit_char q)); [|exact Hx]. intros y Hy. unfold unit_char in Hy. apply andb_true_iff in Hy. tauto. }
+      (norm_app; cbn [app]).
+      rewrite (p_number_text t _ _ b Ht (num_follow_hsp_then t sp q _ Hsp Hqh Hqd Hq46 Hq47)).
+      rewrite (skip_hsp_run sp (q :: _) _ b Hsp Hqh).
+      rewrite (p_static_quoted q x _ fuel _ b Hq2 Hxq (name_followb_hsp_then w1 125 _ Hw1 eq_refl eq_refl) Hfuel).
+      rewrite (skip_hsp_run w1 (125 :: _) _ b Hw1 eq_refl), eat_hit. cbn [rest].
+      rewrite (oprep_roundtrip p w c r Hok Hw Hc). unfold adv_pair, adv. cbn [fst snd off bad].
+      f_equal. f_equal. repeat (rewrite len_app || rewrite len_cons || rewrite len_nil). lia.
+    + (norm_app; cbn [app]).
+      rewrite (p_number_text t _ _ b Ht (num_follow_hsp_then t w1 125 _ Hw1 eq_refl eq_refl ltac:(discriminate) ltac:(discriminate))).
+      rewrite (skip_hsp_run w1 (125 :: _) _ b Hw1 eq_refl).
+      rewrite (p_static_fails_at 125 _ fuel _ b eq_refl) by lia.
+      rewrite (skip_hsp_run w1 (125 :: _) _ b Hw1 eq_refl), eat_hit. cbn [rest].
+      rewrite (oprep_roundtrip p w c r Hok Hw Hc). unfold adv_pair, adv. cbn [fst snd off bad].
+      f_equal. f_equal. repeat (rewrite len_app || rewrite len_cons || rewrite len_nil). lia.
 Qed.
